@@ -380,6 +380,16 @@ class WriteFaults(Engine):
             else:
                 entry["target"] = rng.choice(["/etc/hostname", "missing-target", "."])
             entries.append(entry)
+        if rng.random() < 0.25:
+            # the leftovers of an earlier run on the same input: everything is named after the input
+            entries = [{"name": name, "type": "file", "content": "previous results\n"}
+                       for name in rng.sample(["input.json", "input.gbk", "input.zip", "input.gff", "input.txt"],
+                                              rng.randint(1, 4))]
+            if rng.random() < 0.3:
+                entries.append({"name": "input", "type": "dir", "children": []})
+            return {"kind": "directory", "entries": entries, "exists": True, "is_file": False, "mode": "sequence",
+                    "input_name": "input.gbk", "logfile": rng.choice(["inside", "outside", "none"]),
+                    "explicit_output_dir": True, "level": rng.choice(["pipeline", "pipeline", "function"])}
         return {"kind": "directory", "entries": entries,
                 "exists": rng.random() < 0.9, "is_file": rng.random() < 0.05,
                 "mode": rng.choice(["sequence", "sequence", "reuse"]),
